@@ -35,6 +35,8 @@ EXTENDS Naturals, FiniteSets, Sequences, TLC
 CONSTANTS
   NTasks,         \* 1..3: the workflow's task roles are t1..tN
   MaxFaults,      \* fault budget (1 or 2)
+  MaxStale,       \* stale healthy state messages of a dead task that may still be processed (0 or 1)
+  MaxMup,         \* master-generated TASK_RUNNING updates (no executor id) that may arrive (0 or 1)
   Racing,         \* BOOLEAN: one API transition (START from CONFIGURED, STOP from RUNNING) may race
   Kinds,          \* fault kinds explored, subset of AllKinds
   Layouts,        \* subset of {"own", "shared", "mixed"}: which tasks share an executor (= agent in the simulation)
@@ -73,6 +75,8 @@ VARIABLES
   tstatus,   \* [Tasks -> "ACTIVE" | "INACTIVE"]
   alive,     \* [Tasks -> BOOLEAN] the task's process exists and answers commands
   sick,      \* tasks that went to ERROR on their own (TASK_INTERNAL_ERROR): they answer every command with an error
+  late,      \* dead tasks whose answer to the command in progress was already on its way when they died
+  inp,       \* other inputs left: [stale |-> n, mup |-> n] (stale healthy state messages, master-generated status updates)
   reach,     \* [Tasks -> SUBSET {"exec","agent"}] roster still attributes the task to its executor / agent
   root,      \* cached state of the workflow root
   chains,    \* state updates in flight: set of [t, s, pc, ie]
@@ -88,7 +92,7 @@ VARIABLES
   critTouched,  \* history: any injected event touched a critical task
   excused       \* history: deviations the execution went through (subset of {"live","inert","runend"})
 
-vars == <<crit, layout, hook, envSt, lock, tx, apiLeft, tstate, tstatus, alive, sick, reach, root, chains, msgs, stq,
+vars == <<crit, layout, hook, envSt, lock, tx, apiLeft, tstate, tstatus, alive, sick, late, inp, reach, root, chains, msgs, stq,
           wpc, wval, nbuf, ies, runEnd, budget, critHit, critTouched, excused>>
 
 (* ------------------------------------------------------------------------ *)
@@ -152,7 +156,8 @@ Init ==
   /\ tstate = [t \in Tasks |-> envSt]
   /\ tstatus = [t \in Tasks |-> "ACTIVE"]
   /\ alive = [t \in Tasks |-> TRUE]
-  /\ sick = {}
+  /\ sick = {} /\ late = {}
+  /\ inp = [stale |-> MaxStale, mup |-> MaxMup]
   /\ reach = [t \in Tasks |-> {"exec", "agent"}]
   /\ root = FoldOf(crit, tstate)
   /\ chains = {} /\ msgs = {} /\ stq = {} /\ ies = {}
@@ -170,12 +175,14 @@ Init ==
 (* ------------------------------------------------------------------------ *)
 (* Faults (injected by the simulated Mesos master)                          *)
 (* ------------------------------------------------------------------------ *)
-\* assumption: the state update of a task's last answer has been applied, and an earlier fault of the same
-\* task has been taken in, when its failure is processed (updateTaskState runs in a goroutine of its own;
-\* an arbitrarily late one could overwrite ERROR)
+\* assumption: an earlier fault of the same task has been taken in when the next one strikes
 Settled(ts) ==
-  /\ \A c \in chains : c.t \notin ts
-  /\ \A m \in msgs : IF m.type = "failure" THEN \A u \in ts : ExecOf(layout, u) # ExecOf(layout, m.t) ELSE m.t \notin ts
+  \A m \in msgs : IF m.type = "failure" THEN \A u \in ts : ExecOf(layout, u) # ExecOf(layout, m.t) ELSE m.t \notin ts
+
+\* a task may die while it still owes its answer to the command in progress; the answer may already be
+\* on its way (it is then processed after the failure report: every message has a goroutine of its own)
+Owing(ts) == IF tx.pc = "sent" THEN (tx.targets \ tx.replied) \cap ts ELSE {}
+DieOwing(ts) == \E L \in SUBSET Owing(ts) : late' = late \cup L
 
 Note(k, ts) ==
   /\ critTouched' = (critTouched \/ \E u \in ts : crit[u])
@@ -188,7 +195,8 @@ TaskTerminal(k, t) ==
   /\ msgs' = msgs \cup {[type |-> "status", k |-> "TERMINAL", t |-> t]}   \* the three kinds take the same path
   /\ budget' = budget - 1
   /\ Note(k, {t})
-  /\ UNCHANGED <<crit, layout, hook, envSt, lock, tx, apiLeft, tstate, tstatus, sick, reach, root, chains, stq, wpc, wval, nbuf,
+  /\ DieOwing({t})
+  /\ UNCHANGED <<crit, layout, hook, envSt, lock, tx, apiLeft, tstate, tstatus, sick, inp, reach, root, chains, stq, wpc, wval, nbuf,
                  ies, runEnd, excused>>
 
 ProcDies(t) == TaskTerminal("TASK_FAILED", t)
@@ -202,7 +210,8 @@ Finished(t) ==
   /\ msgs' = msgs \cup {[type |-> "status", k |-> "TASK_FINISHED", t |-> t]}
   /\ budget' = budget - 1
   /\ Note("TASK_FINISHED", {t})
-  /\ UNCHANGED <<crit, layout, hook, envSt, lock, tx, apiLeft, tstate, tstatus, sick, reach, root, chains, stq, wpc, wval, nbuf,
+  /\ DieOwing({t})
+  /\ UNCHANGED <<crit, layout, hook, envSt, lock, tx, apiLeft, tstate, tstatus, sick, inp, reach, root, chains, stq, wpc, wval, nbuf,
                  ies, runEnd, excused>>
 
 GroupLost(k, t) ==
@@ -211,9 +220,10 @@ GroupLost(k, t) ==
      IN /\ Settled(A)
         /\ alive' = [u \in Tasks |-> IF u \in A THEN FALSE ELSE alive[u]]
         /\ Note(k, A)
+        /\ DieOwing(A)
   /\ msgs' = msgs \cup {[type |-> "failure", k |-> k, t |-> t]}
   /\ budget' = budget - 1
-  /\ UNCHANGED <<crit, layout, hook, envSt, lock, tx, apiLeft, tstate, tstatus, sick, reach, root, chains, stq, wpc, wval, nbuf,
+  /\ UNCHANGED <<crit, layout, hook, envSt, lock, tx, apiLeft, tstate, tstatus, sick, inp, reach, root, chains, stq, wpc, wval, nbuf,
                  ies, runEnd, excused>>
 
 ExecutorLost(t) == GroupLost("EXECUTOR_LOST", t)
@@ -226,8 +236,29 @@ InternalError(t) ==
   /\ sick' = sick \cup {t}
   /\ budget' = budget - 1
   /\ Note("INTERNAL_ERROR", {t})
-  /\ UNCHANGED <<crit, layout, hook, envSt, lock, tx, apiLeft, tstate, tstatus, alive, reach, root, chains, stq, wpc, wval,
+  /\ UNCHANGED <<crit, layout, hook, envSt, lock, tx, apiLeft, tstate, tstatus, alive, late, inp, reach, root, chains, stq, wpc, wval,
                  nbuf, ies, runEnd, excused>>
+
+\* a healthy state message of a task that is already dead is processed only now (a duplicated or late answer:
+\* scheduler.go turns every transition response into a TaskStateMessage, whether a command waits for it or not)
+Healthy == IF runEnd = "open" THEN "RUNNING" ELSE "CONFIGURED"
+StaleUpdate(t) ==
+  /\ inp.stale > 0 /\ ~alive[t]
+  /\ inp' = [inp EXCEPT !.stale = @ - 1]
+  /\ chains' = chains \cup {Chain(t, Healthy, FALSE)}
+  /\ UNCHANGED <<crit, layout, hook, envSt, lock, tx, apiLeft, tstate, tstatus, alive, sick, late, reach, root, msgs, stq, wpc, wval,
+                 nbuf, ies, runEnd, budget, critHit, critTouched, excused>>
+
+\* the master (not the executor) reports TASK_RUNNING for a running task: no executor id, possibly no agent id
+\* (agent re-registration, answers to reconciliation)
+MasterUpdate(t, v) ==
+  /\ inp.mup > 0 /\ alive[t] /\ v \in {"noexec", "noids"} /\ envSt \in Live
+  /\ inp' = [inp EXCEPT !.mup = @ - 1]
+  /\ msgs' = msgs \cup {[type |-> "running", k |-> v, t |-> t]}
+  /\ UNCHANGED <<crit, layout, hook, envSt, lock, tx, apiLeft, tstate, tstatus, alive, sick, late, reach, root, chains, stq, wpc, wval,
+                 nbuf, ies, runEnd, budget, critHit, critTouched, excused>>
+
+Input == \E t \in Tasks : StaleUpdate(t) \/ MasterUpdate(t, "noexec") \/ MasterUpdate(t, "noids")
 
 Fault == \E t \in Tasks : ProcDies(t) \/ Lost(t) \/ KilledByOther(t) \/ Finished(t) \/ ExecutorLost(t) \/ AgentLost(t)
                           \/ InternalError(t)
@@ -235,14 +266,27 @@ Fault == \E t \in Tasks : ProcDies(t) \/ Lost(t) \/ KilledByOther(t) \/ Finished
 (* ------------------------------------------------------------------------ *)
 (* Pipeline                                                                 *)
 (* ------------------------------------------------------------------------ *)
-\* manager.go handleMessage(TaskStatusMessage): the task is locked (it belongs to the environment)
+\* manager.go updateTaskStatus(TASK_RUNNING): the task is (still) ACTIVE; the ids the roster knows are
+\* refreshed only from ids the update carries, so such an update changes nothing here
+RunningMsg(m) ==
+  /\ m \in msgs /\ m.type = "running"
+  /\ msgs' = msgs \ {m}
+  /\ tstatus' = [tstatus EXCEPT ![m.t] = IF alive[m.t] THEN "ACTIVE" ELSE @]
+  /\ UNCHANGED <<crit, layout, hook, envSt, lock, tx, apiLeft, tstate, alive, sick, late, inp, reach, root, chains, stq, wpc, wval, nbuf, ies,
+                 runEnd, budget, critHit, critTouched, excused>>
+
+\* manager.go handleMessage(TaskStatusMessage): a terminal status of a locked task (hostname, agent id and
+\* executor id known: it belongs to an environment) => go updateTaskState(ERROR); TASK_FINISHED => DONE
+Locked(t) == reach[t] = {"exec", "agent"}
 StatusMsg(m) ==
   /\ m \in msgs /\ m.type = "status"
   /\ msgs' = msgs \ {m}
-  /\ chains' = chains \cup {Chain(m.t, IF m.k = "TASK_FINISHED" THEN "DONE" ELSE "ERROR", FALSE)}
+  /\ chains' = IF m.k = "TASK_FINISHED" THEN chains \cup {Chain(m.t, "DONE", FALSE)}
+               ELSE IF Locked(m.t) THEN chains \cup {Chain(m.t, "ERROR", FALSE)}
+               ELSE chains
   /\ IF FineChains THEN stq' = stq \cup {m.t} /\ UNCHANGED tstatus
                    ELSE tstatus' = [tstatus EXCEPT ![m.t] = "INACTIVE"] /\ UNCHANGED stq
-  /\ UNCHANGED <<crit, layout, hook, envSt, lock, tx, apiLeft, tstate, alive, sick, reach, root, wpc, wval, nbuf, ies,
+  /\ UNCHANGED <<crit, layout, hook, envSt, lock, tx, apiLeft, tstate, alive, sick, late, inp, reach, root, wpc, wval, nbuf, ies,
                  runEnd, budget, critHit, critTouched, excused>>
 
 \* scheduler.go failure -> environment/manager.go -> HandleExecutorFailed / HandleAgentFailed
@@ -255,7 +299,7 @@ FailureMsg(m) ==
         /\ IF FineChains THEN stq' = stq \cup A /\ UNCHANGED tstatus
                          ELSE tstatus' = [u \in Tasks |-> IF u \in A THEN "INACTIVE" ELSE tstatus[u]] /\ UNCHANGED stq
   /\ msgs' = msgs \ {m}
-  /\ UNCHANGED <<crit, layout, hook, envSt, lock, tx, apiLeft, tstate, alive, sick, root, wpc, wval, nbuf, ies, runEnd,
+  /\ UNCHANGED <<crit, layout, hook, envSt, lock, tx, apiLeft, tstate, alive, sick, late, inp, root, wpc, wval, nbuf, ies, runEnd,
                  budget, critHit, critTouched, excused>>
 
 \* environment/manager.go handleDeviceEvent(TASK_INTERNAL_ERROR)
@@ -270,7 +314,7 @@ DeviceMsg(m) ==
               /\ excused' = IF crit[m.t] /\ envSt \in Live THEN Excuse("live") ELSE excused
          ELSE /\ chains' = chains \cup {Chain(m.t, "ERROR", FALSE)}
               /\ UNCHANGED excused
-  /\ UNCHANGED <<crit, layout, hook, envSt, lock, tx, apiLeft, tstate, tstatus, alive, sick, reach, root, stq, wpc, wval, nbuf, ies,
+  /\ UNCHANGED <<crit, layout, hook, envSt, lock, tx, apiLeft, tstate, tstatus, alive, sick, late, inp, reach, root, stq, wpc, wval, nbuf, ies,
                  runEnd, budget, critHit, critTouched>>
 
 \* manager.go updateTaskStatus: terminal status => INACTIVE
@@ -278,7 +322,7 @@ StatusInactive(t) ==
   /\ t \in stq
   /\ stq' = stq \ {t}
   /\ tstatus' = [tstatus EXCEPT ![t] = "INACTIVE"]
-  /\ UNCHANGED <<crit, layout, hook, envSt, lock, tx, apiLeft, tstate, alive, sick, reach, root, chains, msgs, wpc, wval, nbuf, ies,
+  /\ UNCHANGED <<crit, layout, hook, envSt, lock, tx, apiLeft, tstate, alive, sick, late, inp, reach, root, chains, msgs, wpc, wval, nbuf, ies,
                  runEnd, budget, critHit, critTouched, excused>>
 
 \* the goroutine of a TASK_INTERNAL_ERROR goes on to STOP_ACTIVITY once its role update returned
@@ -301,7 +345,7 @@ StateToError(c) ==
                    /\ ies' = EndChain(c)
                    /\ excused' = IF c.ie /\ Code_InternalErrorIgnoresCriticality THEN Excuse("inert") ELSE excused
                    /\ UNCHANGED root
-  /\ UNCHANGED <<crit, layout, hook, envSt, lock, tx, apiLeft, tstatus, alive, sick, reach, msgs, stq, wpc, wval, nbuf,
+  /\ UNCHANGED <<crit, layout, hook, envSt, lock, tx, apiLeft, tstatus, alive, sick, late, inp, reach, msgs, stq, wpc, wval, nbuf,
                  runEnd, budget, critHit, critTouched>>
 
 \* taskrole.go updateState: if t.Critical { t.parent.updateState(s) }
@@ -313,7 +357,7 @@ RoleForward(c) ==
        ELSE /\ chains' = chains \ {c}
             /\ ies' = EndChain(c)
             /\ excused' = IF c.ie /\ Code_InternalErrorIgnoresCriticality THEN Excuse("inert") ELSE excused
-  /\ UNCHANGED <<crit, layout, hook, envSt, lock, tx, apiLeft, tstate, tstatus, alive, sick, reach, root, msgs, stq, wpc, wval, nbuf,
+  /\ UNCHANGED <<crit, layout, hook, envSt, lock, tx, apiLeft, tstate, tstatus, alive, sick, late, inp, reach, root, msgs, stq, wpc, wval, nbuf,
                  runEnd, budget, critHit, critTouched>>
 
 \* aggregatorrole.go updateState: r.state.merge(s, r)
@@ -321,7 +365,7 @@ RootMerge(c) ==
   /\ c \in chains /\ c.pc = "root"
   /\ root' = MergeRootOf(crit, root, c.s, tstate)
   /\ chains' = (chains \ {c}) \cup {[c EXCEPT !.pc = "notify", !.val = root']}
-  /\ UNCHANGED <<crit, layout, hook, envSt, lock, tx, apiLeft, tstate, tstatus, alive, sick, reach, msgs, stq, wpc, wval, nbuf, ies,
+  /\ UNCHANGED <<crit, layout, hook, envSt, lock, tx, apiLeft, tstate, tstatus, alive, sick, late, inp, reach, msgs, stq, wpc, wval, nbuf, ies,
                  runEnd, budget, critHit, critTouched, excused>>
 
 \* parentadapter.go updateState: r.parent.updateState(r.state.get()); the send succeeds only when the
@@ -333,7 +377,7 @@ NotifyDeliver(c) ==
   /\ wpc' = "busy" /\ wval' = c.val
   /\ chains' = chains \ {c}
   /\ ies' = EndChain(c)
-  /\ UNCHANGED <<crit, layout, hook, envSt, lock, tx, apiLeft, tstate, tstatus, alive, sick, reach, root, msgs, stq, nbuf,
+  /\ UNCHANGED <<crit, layout, hook, envSt, lock, tx, apiLeft, tstate, tstatus, alive, sick, late, inp, reach, root, msgs, stq, nbuf,
                  runEnd, budget, critHit, critTouched, excused>>
 
 \* ... otherwise the value is dropped (default branch), or nobody is subscribed any more
@@ -351,14 +395,14 @@ NotifyDrop(c) ==
                    /\ nbuf' = IF wpc = "unsub" THEN "none" ELSE IF nbuf = "ERROR" THEN "ERROR" ELSE c.val
                    /\ UNCHANGED excused
        ELSE UNCHANGED <<nbuf, excused>>
-  /\ UNCHANGED <<crit, layout, hook, envSt, lock, tx, apiLeft, tstate, tstatus, alive, sick, reach, root, msgs, stq, wpc, wval,
+  /\ UNCHANGED <<crit, layout, hook, envSt, lock, tx, apiLeft, tstate, tstatus, alive, sick, late, inp, reach, root, msgs, stq, wpc, wval,
                  runEnd, budget, critHit, critTouched>>
 
 \* repaired design: the watcher back at its select takes the buffered state
 WatchRecvBuffered ==
   /\ wpc = "select" /\ nbuf # "none"
   /\ wpc' = "busy" /\ wval' = nbuf /\ nbuf' = "none"
-  /\ UNCHANGED <<crit, layout, hook, envSt, lock, tx, apiLeft, tstate, tstatus, alive, sick, reach, root, chains, msgs, stq, ies,
+  /\ UNCHANGED <<crit, layout, hook, envSt, lock, tx, apiLeft, tstate, tstatus, alive, sick, late, inp, reach, root, chains, msgs, stq, ies,
                  runEnd, budget, critHit, critTouched, excused>>
 
 \* environment.go subscribeToWfState: SubscribeToStateChange; wfState := wf.GetState(); if wfState != ERROR { loop }
@@ -369,26 +413,26 @@ WatchSubscribe ==
               THEN wpc' = "exited" /\ excused' = Excuse("live")
               ELSE wpc' = "armed" /\ UNCHANGED excused
        ELSE wpc' = "select" /\ UNCHANGED excused
-  /\ UNCHANGED <<crit, layout, hook, envSt, lock, tx, apiLeft, tstate, tstatus, alive, sick, reach, root, chains, msgs, stq, wval, nbuf,
+  /\ UNCHANGED <<crit, layout, hook, envSt, lock, tx, apiLeft, tstate, tstatus, alive, sick, late, inp, reach, root, chains, msgs, stq, wval, nbuf,
                  ies, runEnd, budget, critHit, critTouched>>
 
 \* the watcher looks at what it received: ERROR => arm the 500 ms timer and leave; DONE => leave
 WatchRecv ==
   /\ wpc = "busy"
   /\ wpc' = WatchAfter(wval)
-  /\ UNCHANGED <<crit, layout, hook, envSt, lock, tx, apiLeft, tstate, tstatus, alive, sick, reach, root, chains, msgs, stq, wval, nbuf,
+  /\ UNCHANGED <<crit, layout, hook, envSt, lock, tx, apiLeft, tstate, tstatus, alive, sick, late, inp, reach, root, chains, msgs, stq, wval, nbuf,
                  ies, runEnd, budget, critHit, critTouched, excused>>
 
 WatchLoop ==
   /\ wpc = "loop"
   /\ wpc' = "select"
-  /\ UNCHANGED <<crit, layout, hook, envSt, lock, tx, apiLeft, tstate, tstatus, alive, sick, reach, root, chains, msgs, stq, wval, nbuf,
+  /\ UNCHANGED <<crit, layout, hook, envSt, lock, tx, apiLeft, tstate, tstatus, alive, sick, late, inp, reach, root, chains, msgs, stq, wval, nbuf,
                  ies, runEnd, budget, critHit, critTouched, excused>>
 
 TimerFire ==
   /\ wpc = "armed"
   /\ wpc' = "fired"
-  /\ UNCHANGED <<crit, layout, hook, envSt, lock, tx, apiLeft, tstate, tstatus, alive, sick, reach, root, chains, msgs, stq, wval, nbuf,
+  /\ UNCHANGED <<crit, layout, hook, envSt, lock, tx, apiLeft, tstate, tstatus, alive, sick, late, inp, reach, root, chains, msgs, stq, wval, nbuf,
                  ies, runEnd, budget, critHit, critTouched, excused>>
 
 \* TryTransition(GO_ERROR): waits for the lock; skipped when already in ERROR
@@ -399,7 +443,7 @@ GoError ==
        THEN envSt' = "ERROR" /\ runEnd' = Rec(runEnd)
        ELSE UNCHANGED <<envSt, runEnd>>
   /\ wpc' = "stop"
-  /\ UNCHANGED <<crit, layout, hook, lock, tx, apiLeft, tstate, tstatus, alive, sick, reach, root, chains, msgs, stq, wval, nbuf,
+  /\ UNCHANGED <<crit, layout, hook, lock, tx, apiLeft, tstate, tstatus, alive, sick, late, inp, reach, root, chains, msgs, stq, wval, nbuf,
                  ies, budget, critHit, critTouched, excused>>
 
 \* GO_ERROR refused (a critical before_GO_ERROR hook fails): env.setState("ERROR")
@@ -413,7 +457,7 @@ ForceError ==
        ELSE /\ runEnd' = Rec(runEnd)
             /\ UNCHANGED excused
   /\ wpc' = "stop"
-  /\ UNCHANGED <<crit, layout, hook, lock, tx, apiLeft, tstate, tstatus, alive, sick, reach, root, chains, msgs, stq, wval, nbuf,
+  /\ UNCHANGED <<crit, layout, hook, lock, tx, apiLeft, tstate, tstatus, alive, sick, late, inp, reach, root, chains, msgs, stq, wval, nbuf,
                  ies, budget, critHit, critTouched>>
 
 \* STOP for the tasks still RUNNING (outside the lock); the live ones answer and become CONFIGURED
@@ -421,7 +465,7 @@ StopRunning ==
   /\ wpc = "stop"
   /\ wpc' = "exited"
   /\ chains' = chains \cup {Chain(t, "CONFIGURED", FALSE) : t \in {u \in Tasks : tstate[u] = "RUNNING" /\ alive[u]}}
-  /\ UNCHANGED <<crit, layout, hook, envSt, lock, tx, apiLeft, tstate, tstatus, alive, sick, reach, root, msgs, stq, wval, nbuf,
+  /\ UNCHANGED <<crit, layout, hook, envSt, lock, tx, apiLeft, tstate, tstatus, alive, sick, late, inp, reach, root, msgs, stq, wval, nbuf,
                  ies, runEnd, budget, critHit, critTouched, excused>>
 
 (* ------------------------------------------------------------------------ *)
@@ -433,7 +477,7 @@ ApiAcquire ==
   /\ lock' = "api"
   /\ tx' = [TxIdle EXCEPT !.who = "api", !.op = IF envSt = "CONFIGURED" THEN "START" ELSE "STOP", !.pc = "locked"]
   /\ apiLeft' = apiLeft - 1
-  /\ UNCHANGED <<crit, layout, hook, envSt, tstate, tstatus, alive, sick, reach, root, chains, msgs, stq, wpc, wval, nbuf, ies, runEnd,
+  /\ UNCHANGED <<crit, layout, hook, envSt, tstate, tstatus, alive, sick, late, inp, reach, root, chains, msgs, stq, wpc, wval, nbuf, ies, runEnd,
                  budget, critHit, critTouched, excused>>
 
 IeAcquire(t) ==
@@ -443,7 +487,7 @@ IeAcquire(t) ==
        THEN /\ lock' = "ie"
             /\ tx' = [TxIdle EXCEPT !.who = "ie", !.op = "STOP", !.pc = "locked"]
        ELSE UNCHANGED <<lock, tx>>    \* STOP_ACTIVITY inappropriate in the current state: logged only
-  /\ UNCHANGED <<crit, layout, hook, envSt, apiLeft, tstate, tstatus, alive, sick, reach, root, chains, msgs, stq, wpc, wval, nbuf,
+  /\ UNCHANGED <<crit, layout, hook, envSt, apiLeft, tstate, tstatus, alive, sick, late, inp, reach, root, chains, msgs, stq, wpc, wval, nbuf,
                  runEnd, budget, critHit, critTouched, excused>>
 
 \* before_<event> (START: a run opens; STOP: the end of run is recorded), then the command goes to
@@ -452,34 +496,35 @@ TxSend ==
   /\ tx.pc = "locked"
   /\ runEnd' = IF tx.op = "START" THEN "open" ELSE Rec(runEnd)
   /\ tx' = [tx EXCEPT !.pc = "sent", !.targets = {t \in Tasks : tstatus[t] = "ACTIVE"}]
-  /\ UNCHANGED <<crit, layout, hook, envSt, lock, apiLeft, tstate, tstatus, alive, sick, reach, root, chains, msgs, stq, wpc, wval, nbuf,
+  /\ UNCHANGED <<crit, layout, hook, envSt, lock, apiLeft, tstate, tstatus, alive, sick, late, inp, reach, root, chains, msgs, stq, wpc, wval, nbuf,
                  ies, budget, critHit, critTouched, excused>>
 
 \* a live target answers: done, or - a task that is in ERROR on its own - an error and state ERROR
 TxReply(t) ==
-  /\ tx.pc = "sent" /\ t \in tx.targets \ tx.replied /\ alive[t]
-  /\ tx' = [tx EXCEPT !.replied = @ \cup {t}, !.failed = IF t \in sick THEN @ \cup {t} ELSE @]
-  /\ chains' = chains \cup {Chain(t, IF t \in sick THEN "ERROR" ELSE Dst(tx.op), FALSE)}
-  /\ UNCHANGED <<crit, layout, hook, envSt, lock, apiLeft, tstate, tstatus, alive, sick, reach, root, msgs, stq, wpc, wval, nbuf,
+  /\ tx.pc = "sent" /\ t \in tx.targets \ tx.replied /\ (alive[t] \/ t \in late)
+  /\ tx' = [tx EXCEPT !.replied = @ \cup {t}, !.failed = IF t \in sick /\ alive[t] THEN @ \cup {t} ELSE @]
+  /\ chains' = chains \cup {Chain(t, IF t \in sick /\ alive[t] THEN "ERROR" ELSE Dst(tx.op), FALSE)}
+  /\ late' = late \ {t}
+  /\ UNCHANGED <<crit, layout, hook, envSt, lock, apiLeft, tstate, tstatus, alive, sick, inp, reach, root, msgs, stq, wpc, wval, nbuf,
                  ies, runEnd, budget, critHit, critTouched, excused>>
 
 \* every target answered, or died before answering (the command then times out after 90 s)
-TxDone == tx.pc = "sent" /\ \A t \in tx.targets : t \in tx.replied \/ ~alive[t]
-TxBad == {t \in tx.targets : t \in tx.failed \/ (t \notin tx.replied /\ ~alive[t])}
+TxDone == tx.pc = "sent" /\ \A t \in tx.targets : t \in tx.replied \/ (~alive[t] /\ t \notin late)
+TxBad == {t \in tx.targets : t \in tx.failed \/ (t \notin tx.replied /\ ~alive[t] /\ t \notin late)}
 
 \* no critical target failed: the FSM enters the destination state (enter_<state>, after_<event> hooks follow) ...
 TxEnter ==
   /\ TxDone /\ \A t \in TxBad : ~crit[t]
   /\ envSt' = Dst(tx.op)
   /\ tx' = [tx EXCEPT !.pc = "entered"]
-  /\ UNCHANGED <<crit, layout, hook, lock, apiLeft, tstate, tstatus, alive, sick, reach, root, chains, msgs, stq, wpc, wval, nbuf, ies,
+  /\ UNCHANGED <<crit, layout, hook, lock, apiLeft, tstate, tstatus, alive, sick, late, inp, reach, root, chains, msgs, stq, wpc, wval, nbuf, ies,
                  runEnd, budget, critHit, critTouched, excused>>
 
 \* ... and TryTransition returns: the lock is released
 TxRelease ==
   /\ tx.pc = "entered"
   /\ lock' = "none" /\ tx' = TxIdle
-  /\ UNCHANGED <<crit, layout, hook, envSt, apiLeft, tstate, tstatus, alive, sick, reach, root, chains, msgs, stq, wpc, wval, nbuf, ies,
+  /\ UNCHANGED <<crit, layout, hook, envSt, apiLeft, tstate, tstatus, alive, sick, late, inp, reach, root, chains, msgs, stq, wpc, wval, nbuf, ies,
                  runEnd, budget, critHit, critTouched, excused>>
 
 \* a critical target failed: the transition fails; the API handler then runs GO_ERROR itself
@@ -490,17 +535,17 @@ TxFail ==
        THEN envSt' = "ERROR" /\ runEnd' = Rec(runEnd)
        ELSE UNCHANGED <<envSt, runEnd>>
   /\ lock' = "none" /\ tx' = TxIdle
-  /\ UNCHANGED <<crit, layout, hook, apiLeft, tstate, tstatus, alive, sick, reach, root, chains, msgs, stq, wpc, wval, nbuf, ies,
+  /\ UNCHANGED <<crit, layout, hook, apiLeft, tstate, tstatus, alive, sick, late, inp, reach, root, chains, msgs, stq, wpc, wval, nbuf, ies,
                  budget, critHit, critTouched, excused>>
 
 Pipeline ==
-  \/ \E m \in msgs : StatusMsg(m) \/ FailureMsg(m) \/ DeviceMsg(m)
+  \/ \E m \in msgs : StatusMsg(m) \/ FailureMsg(m) \/ DeviceMsg(m) \/ RunningMsg(m)
   \/ \E t \in Tasks : StatusInactive(t) \/ IeAcquire(t) \/ TxReply(t)
   \/ \E c \in chains : StateToError(c) \/ RoleForward(c) \/ RootMerge(c) \/ NotifyDeliver(c) \/ NotifyDrop(c)
   \/ WatchSubscribe \/ WatchRecv \/ WatchLoop \/ WatchRecvBuffered \/ TimerFire \/ GoError \/ ForceError \/ StopRunning
   \/ TxSend \/ TxEnter \/ TxRelease \/ TxFail
 
-Next == Fault \/ ApiAcquire \/ Pipeline
+Next == Fault \/ Input \/ ApiAcquire \/ Pipeline
 
 Spec == Init /\ [][Next]_vars /\ WF_vars(Pipeline)
 
